@@ -250,6 +250,39 @@ class _SymLinalg:
             out[idx] = _det(a[idx])
         return out.view(SymArray)
 
+    def _inv_gauss(self, A):
+        """Gauss-Jordan with symbolic pivot tests: `pivot == 0` is decided by the path solver (an
+        infeasible branch is pruned, a feasible one forks) -- exact inverse; LinAlgError iff singular."""
+        n = A.shape[0]
+        M = [[SymReal.lift(A[i, j]) for j in range(n)] + [SymReal(int(i == j)) for j in range(n)] for i in range(n)]
+        for c in range(n):
+            p = None
+            for r in range(c, n):
+                e = M[r][c]
+                if e.c is not None and e.u is None:
+                    nz = e.c != 0
+                else:
+                    nz = bool(e != 0)  # fork / prune
+                if nz:
+                    p = r
+                    break
+            if p is None:
+                raise _np.linalg.LinAlgError("Singular matrix")
+            M[c], M[p] = M[p], M[c]
+            pv = M[c][c]
+            M[c] = [v / pv for v in M[c]]
+            for r in range(n):
+                if r != c:
+                    f = M[r][c]
+                    if f.c is not None and f.c == 0 and f.u is None:
+                        continue
+                    M[r] = [vr - f * vc for vr, vc in zip(M[r], M[c])]
+        out = _np.empty((n, n), dtype=object)
+        for i in range(n):
+            for j in range(n):
+                out[i, j] = M[i][n + j]
+        return out
+
     def _inv(self, A):
         n = A.shape[0]
         if all(isinstance(e, SymReal) and e.concrete for e in A.ravel()):
@@ -279,6 +312,8 @@ class _SymLinalg:
         A = _base(a)
         if A.ndim != 2 or A.shape[0] != A.shape[1]:
             raise _np.linalg.LinAlgError("Last 2 dimensions of the array must be square")
+        if A.shape[0] > 3 and not all(isinstance(e, SymReal) and e.concrete for e in A.ravel()):
+            return self._inv_gauss(A).view(SymArray)
         adj, d = self._inv(A)
         if d is None:
             return adj.view(SymArray)
